@@ -55,6 +55,9 @@ def run(ctx):
                     extra["max_scale"] = hexf(rng.choice([0.5, 0.9, 1.0, 0.3]))
                 groups.append({"name": name, "args": G.enc_args(a), "extra": extra, "order": rng.sample(range(8), 8), "cheb_only": cheb_only})
     if ctx.replay is None:
+        # 1/x over small and ordinary b = int(kappa^2 log(kappa/eps)) (the Chebyshev sum has trailing zeros when j0 >= b)
+        for kappa, eps in ((1.5, 0.3), (1.3, 0.2), (1.1, 0.01), (2.0, 0.1), (3.0, 0.3), (1.2, 0.3)):
+            groups.append({"name": "invert", "args": G.enc_args({"kappa": kappa, "epsilon": eps}), "extra": {}, "order": rng.sample(range(8), 8), "cheb_only": False})
         for name in ("cos", "sin"):
             for tau, eps in ((16.0, 0.3), (0.5, 0.3), (12.0, 0.5), (8.0, 0.3), (3.0, 0.5), (1.0, 0.1)):
                 groups.append({"name": name, "args": G.enc_args({"tau": tau, "epsilon": eps}), "extra": {}, "order": rng.sample(range(8), 8), "cheb_only": False})
